@@ -308,6 +308,15 @@ func (c *Ctx) execInstr(fr *Frame, ins ssa.Instruction, st *State, reach string)
 			c.skipZeroInit = map[int]bool{}
 			if refs := x.Referrers(); refs != nil {
 				for _, r := range *refs {
+					// a whole-struct store (*p = v) initialises every field
+					if ws, ok := r.(*ssa.Store); ok && ws.Addr == ssa.Value(x) {
+						for fi := 0; fi < stt.NumFields(); fi++ {
+							an, _ := c.sorts.FieldArray(elem, fi)
+							if c.isFinal(an) {
+								c.skipZeroInit[fi] = true
+							}
+						}
+					}
 					if fa, ok := r.(*ssa.FieldAddr); ok && fa.X == x {
 						an, _ := c.sorts.FieldArray(elem, fa.Field)
 						if c.isFinal(an) && hasStoreTo(fa) {
